@@ -21,6 +21,8 @@ CONSTANTS Threads,         \* 1..NT
           LoadsOpts,       \* set of workloads  Threads -> Seq(Keys): top-level loads of each thread, in order
           SharedOpts,      \* subset of BOOLEAN: one resolver shared by all threads / one per thread
           CacheOpts,       \* subset of BOOLEAN: object cache on / off (the cache always belongs to the document)
+          DirectKeys,      \* keys that are reached as a *direct* typed entry given by reference (Resolve::with_loading:
+                           \* on the guard's list while being decoded, never through the cache); leaves, never loaded top-level
           Dev
 
 VARIABLES conf,      \* configuration [deps, loads, shared, cacheOn], chosen in Init and never changed
@@ -30,9 +32,11 @@ VARIABLES conf,      \* configuration [deps, loads, shared, cacheOn], chosen in 
           cache,     \* Keys -> "absent" | "inproc" | "ok" | "err"
           results,   \* Threads -> Seq of "ok" | "err"
           panicked,  \* a thread panicked (the chain mutex is poisoned from then on)
+          gorder,    \* order of the entries <<t, k>> in the one list of a shared resolver (only kept for the deviation
+                     \* "loading_pops_last", <<>> otherwise: the per-thread view `chain` is all the design needs)
           sched      \* history: sequence of thread ids (hidden by VIEW in cover mode)
 
-mvars == <<conf, stack, nxt, chain, cache, results, panicked>>
+mvars == <<conf, stack, nxt, chain, cache, results, panicked, gorder>>
 
 Deps == conf.deps
 Loads == conf.loads
@@ -53,7 +57,12 @@ SeqAnswer(k) == IF ReachesCycle(k, {}) THEN "err" ELSE "ok"
 
 ChainIds == Threads \cup {0}
 ChainOf(t) == IF "shared_chain" \in Dev /\ SharedResolver THEN 0 ELSE t
-NewFrame(k) == [key |-> k, pc |-> "guard", i |-> 0, res |-> "none", rc |-> FALSE]   \* rc: recomputing after a cached error
+NewFrame(k) == [key |-> k, pc |-> IF k \in DirectKeys THEN "lguard" ELSE "guard", i |-> 0, res |-> "none", rc |-> FALSE]   \* rc: recomputing after a cached error
+\* the shared list in its real order (deviation only)
+TrackOrder == "loading_pops_last" \in Dev /\ SharedResolver
+RemoveLast(s, x) == LET J == {j \in 1..Len(s) : s[j] = x} IN
+                    IF J = {} THEN s
+                    ELSE LET m == CHOOSE j \in J : \A j2 \in J : j2 <= j IN SubSeq(s, 1, m - 1) \o SubSeq(s, m + 1, Len(s))
 Top(t) == stack[t][Len(stack[t])]
 SetTop(t, f) == [stack EXCEPT ![t] = [@ EXCEPT ![Len(@)] = f]]
 AfterCompute(f) == IF CacheOn /\ ~f.rc THEN "publish" ELSE "exit"
@@ -118,8 +127,9 @@ GuardEnter(t) ==
   /\ LET k == Top(t).key  c == ChainOf(t) IN
      IF InSeq(k, chain[c])
      THEN /\ Return(t, "err")
-          /\ UNCHANGED <<chain, cache, panicked>>
+          /\ UNCHANGED <<chain, cache, panicked, gorder>>
      ELSE /\ chain' = [chain EXCEPT ![c] = Append(@, k)]
+          /\ gorder' = IF TrackOrder THEN Append(gorder, <<t, k>>) ELSE gorder
           /\ stack' = SetTop(t, [Top(t) EXCEPT !.pc = "cache"])
           /\ UNCHANGED <<nxt, cache, results, panicked>>
 
@@ -128,23 +138,23 @@ CacheEnter(t) ==
   /\ Top(t).pc = "cache"
   /\ LET k == Top(t).key IN
      IF ~CacheOn
-     THEN StartCompute(t) /\ UNCHANGED <<nxt, chain, cache, results, panicked>>
+     THEN StartCompute(t) /\ UNCHANGED <<nxt, chain, cache, results, panicked, gorder>>
      ELSE CASE cache[k] = "absent" ->
                  /\ cache' = [cache EXCEPT ![k] = "inproc"]
                  /\ StartCompute(t)
-                 /\ UNCHANGED <<nxt, chain, results, panicked>>
+                 /\ UNCHANGED <<nxt, chain, results, panicked, gorder>>
             [] cache[k] = "ok" ->
                  /\ stack' = SetTop(t, [Top(t) EXCEPT !.res = "ok", !.pc = "exit"])
-                 /\ UNCHANGED <<nxt, chain, cache, results, panicked>>
+                 /\ UNCHANGED <<nxt, chain, cache, results, panicked, gorder>>
             [] cache[k] = "err" ->
                  /\ Recompute(t)
-                 /\ UNCHANGED <<nxt, chain, cache, results, panicked>>
+                 /\ UNCHANGED <<nxt, chain, cache, results, panicked, gorder>>
             [] cache[k] = "inproc" ->
                  /\ IF "cache_wait_unbounded" \notin Dev /\ WaitReaches(Owner(k), t, Cardinality(Threads) + 1)
                     THEN \* intended design: a wait that would close a cycle of waiting threads is refused
                          stack' = SetTop(t, [Top(t) EXCEPT !.res = "err", !.pc = "exit"])
                     ELSE stack' = SetTop(t, [Top(t) EXCEPT !.pc = "blocked"])     \* waits on the condvar
-                 /\ UNCHANGED <<nxt, chain, cache, results, panicked>>
+                 /\ UNCHANGED <<nxt, chain, cache, results, panicked, gorder>>
 
 \* the waiting thread is notified and finds the computed value
 Wake(t) ==
@@ -153,23 +163,51 @@ Wake(t) ==
   /\ IF cache[Top(t).key] = "ok"
      THEN stack' = SetTop(t, [Top(t) EXCEPT !.res = "ok", !.pc = "exit"])
      ELSE Recompute(t)
-  /\ UNCHANGED <<nxt, chain, cache, results, panicked>>
+  /\ UNCHANGED <<nxt, chain, cache, results, panicked, gorder>>
 
 \* store the computed value, notify_all
 CachePublish(t) ==
   /\ Top(t).pc = "publish"
   /\ cache' = [cache EXCEPT ![Top(t).key] = Top(t).res]
   /\ stack' = SetTop(t, [Top(t) EXCEPT !.pc = "exit"])
-  /\ UNCHANGED <<nxt, chain, results, panicked>>
+  /\ UNCHANGED <<nxt, chain, results, panicked, gorder>>
 
 \* drop guard: lock chain; remove this load's entry
 GuardExit(t) ==
   /\ Top(t).pc = "exit"
   /\ LET k == Top(t).key  c == ChainOf(t)  ch == chain[c] IN
-     /\ chain' = [chain EXCEPT ![c] = SubSeq(ch, 1, Len(ch) - 1)]
-     /\ panicked' = IF ch = <<>> \/ ch[Len(ch)] # k THEN TRUE ELSE panicked   \* assert_eq!(chain.pop(), Some(key))
+     /\ chain' = [chain EXCEPT ![c] = RemoveLast(ch, k)]      \* rposition + remove of this thread's own entry: never a panic
+     /\ UNCHANGED panicked
+     /\ gorder' = IF TrackOrder THEN RemoveLast(gorder, <<t, k>>) ELSE gorder
      /\ Return(t, Top(t).res)
      /\ UNCHANGED cache
+
+\* file.rs with_loading (a direct typed entry given by reference is decoded): lock the list; contains => Err("Recursive
+\* reference"); else push.  The decoding of the (leaf) value follows in the same step, up to the yield point before the exit.
+LoadEnter(t) ==
+  /\ Top(t).pc = "lguard"
+  /\ LET k == Top(t).key  c == ChainOf(t) IN
+     IF InSeq(k, chain[c])
+     THEN /\ Return(t, "err")
+          /\ UNCHANGED <<chain, cache, panicked, gorder>>
+     ELSE /\ chain' = [chain EXCEPT ![c] = Append(@, k)]
+          /\ gorder' = IF TrackOrder THEN Append(gorder, <<t, k>>) ELSE gorder
+          /\ stack' = SetTop(t, [Top(t) EXCEPT !.res = "ok", !.pc = "lexit"])
+          /\ UNCHANGED <<nxt, cache, results, panicked>>
+
+\* with_loading's exit: lock the list; remove this thread's own entry for the key
+\* (deviation "loading_pops_last": pop whatever entry is last in the shared list)
+LoadExit(t) ==
+  /\ Top(t).pc = "lexit"
+  /\ LET k == Top(t).key  c == ChainOf(t) IN
+     /\ IF TrackOrder /\ gorder # <<>>
+        THEN LET e == gorder[Len(gorder)] IN
+             /\ gorder' = SubSeq(gorder, 1, Len(gorder) - 1)
+             /\ chain' = [chain EXCEPT ![e[1]] = RemoveLast(@, e[2])]
+        ELSE /\ chain' = [chain EXCEPT ![c] = RemoveLast(@, k)]
+             /\ UNCHANGED gorder
+     /\ Return(t, Top(t).res)
+     /\ UNCHANGED <<cache, panicked>>
 
 Enabled(t) ==
   /\ stack[t] # <<>>
@@ -179,7 +217,7 @@ Enabled(t) ==
 Act(t) ==
   /\ stack[t] # <<>>
   /\ ~panicked
-  /\ (GuardEnter(t) \/ CacheEnter(t) \/ Wake(t) \/ CachePublish(t) \/ GuardExit(t))
+  /\ (GuardEnter(t) \/ CacheEnter(t) \/ Wake(t) \/ CachePublish(t) \/ GuardExit(t) \/ LoadEnter(t) \/ LoadExit(t))
   /\ UNCHANGED conf
 
 Step(t)   == Act(t) /\ sched' = Append(sched, t)
@@ -201,6 +239,7 @@ Init ==
   /\ cache = [k \in Keys |-> "absent"]
   /\ results = [t \in Threads |-> <<>>]
   /\ panicked = FALSE
+  /\ gorder = <<>>
   /\ sched = <<>>
 
 Pre(t) == stack[t] # <<>> /\ ~panicked
@@ -210,6 +249,8 @@ DoCacheEnter(t)   == Pre(t) /\ CacheEnter(t)   /\ Hist(t)
 DoWake(t)         == Pre(t) /\ Wake(t)         /\ Hist(t)
 DoCachePublish(t) == Pre(t) /\ CachePublish(t) /\ Hist(t)
 DoGuardExit(t)    == Pre(t) /\ GuardExit(t)    /\ Hist(t)
+DoLoadEnter(t)    == Pre(t) /\ LoadEnter(t)    /\ Hist(t)
+DoLoadExit(t)     == Pre(t) /\ LoadExit(t)     /\ Hist(t)
 
 \* same relation as \E t : Step(t), written as one disjunct per critical section (per-action coverage)
 Next == \/ \E t \in Threads : DoGuardEnter(t)
@@ -217,6 +258,8 @@ Next == \/ \E t \in Threads : DoGuardEnter(t)
         \/ \E t \in Threads : DoWake(t)
         \/ \E t \in Threads : DoCachePublish(t)
         \/ \E t \in Threads : DoGuardExit(t)
+        \/ \E t \in Threads : DoLoadEnter(t)
+        \/ \E t \in Threads : DoLoadExit(t)
         \/ Terminated
 
 Spec == Init /\ [][Next]_vars
@@ -226,9 +269,12 @@ FairSpec == Init /\ [][NextNH]_vars /\ \A t \in Threads : WF_vars(StepNH(t))
 -----------------------------------------------------------------------------
 (* Properties (C13)                                                          *)
 
+ASSUME \A d \in DepsOpts : \A k \in DirectKeys : k \in DOMAIN d => d[k] = <<>>          \* direct keys are leaves
+ASSUME \A w \in LoadsOpts : \A t \in DOMAIN w : \A j \in 1..Len(w[t]) : w[t][j] \notin DirectKeys
+
 TypeOK ==
   /\ \A t \in Threads : \A j \in 1..Len(stack[t]) :
-        stack[t][j].pc \in {"guard", "cache", "compute", "publish", "exit", "blocked"}
+        stack[t][j].pc \in {"guard", "cache", "compute", "publish", "exit", "blocked", "lguard", "lexit"}
   /\ \A k \in Keys : cache[k] \in {"absent", "inproc", "ok", "err"}
 
 \* every finished load returned what it would return if it ran alone
@@ -240,7 +286,7 @@ NoPanic == ~panicked
 \* (intended design) a thread's guard holds exactly the keys of its frames that passed the guard
 ChainMatchesStack ==
   \A t \in Threads :
-     LET passed == SelectSeq(stack[t], LAMBDA f : f.pc # "guard") IN
+     LET passed == SelectSeq(stack[t], LAMBDA f : f.pc \notin {"guard", "lguard"}) IN
      "shared_chain" \notin Dev => chain[t] = [j \in 1..Len(passed) |-> passed[j].key]
 
 \* a key is marked in-process iff exactly one thread is computing it
